@@ -35,12 +35,27 @@ def run(c):
         toks = canon(l)[0]
         lines.append('wf ' + ' '.join(toks))
         owners.append(('delayed', eng, k, toks))
+    # <script> elements (lua), in particular document-level ones (children of <scxml>, run when the root is entered): every
+    # executed element has to be reported exactly once, in execution order
+    sc_docs = script_docs()
+    sc_lines = ['run %s %s 60 1 %s' % (eng, d.encode().hex(), ev) for eng in ('large', 'fast') for (d, ev, exp) in sc_docs]
+    sc_out, _ = run_lines_sharded(vd, sc_lines, timeout=600)
+    sc_owner = [(eng, k) for eng in ('large', 'fast') for k in range(len(sc_docs))]
+    sc_bad = []
+    for (eng, k), l in zip(sc_owner, sc_out):
+        toks = canon(l)[0]
+        lines.append('wf ' + ' '.join(toks))
+        owners.append(('script', eng, k, toks))
+        got = [t[3:] for t in toks if t.startswith('C{:')]
+        if got != sc_docs[k][2]:
+            sc_bad.append((eng, k, 'executed elements reported %s, executed (in order) %s' % (' '.join(got), ' '.join(sc_docs[k][2]))))
+    c.cov['script_documents'] = len(sc_lines)
     out, _ = run_lines_sharded(vm, lines)
     # the completeness half: the extracted checker trace_completeb (TraceComplete.v; the statement of
     # large_trace_complete / fast_trace_complete) applied to every implementation trace of a generated chart
     tc_lines, tc_owner = [], []
     for k, (tag, eng, i, toks) in enumerate(owners):
-        if tag == 'delayed':
+        if tag in ('delayed', 'script'):
             continue
         case = (cases if tag == 'sem' else fcases)[i]
         tc_lines.append('tc %d %s %s' % (1 if case['late'] else 0, G.sx_tree(case['tree']), ' '.join(toks)))
@@ -92,7 +107,11 @@ def run(c):
         if f:
             c.known(f['id'], f['what'])
     seen = set()
+    for eng, k, why in sc_bad:
+        bad.append(('script', eng, k, 'incomplete account: ' + why))
     def size_of(b):
+        if b[0] == 'script':
+            return len(sc_docs[b[2]][0])
         return len(dl_docs[b[2]][0]) if b[0] == 'delayed' else len(G.sx_tree((cases if b[0] == 'sem' else fcases)[b[2]]['tree']))
     for tag, eng, i, why in sorted(bad, key=size_of):
         key = (eng, why.split(' at token')[0].split(':')[0])
@@ -102,6 +121,12 @@ def run(c):
         f = c.match_known({'engine': eng, 'class': key[1]})
         if f:
             c.known(f['id'], f['what'])
+            continue
+        if tag == 'script':
+            d, ev, exp = sc_docs[i]
+            c.violation({'kind': 'oracle', 'engine': eng, 'why': why, 'scxml': d, 'events_hex': ev,
+                         'trace': ' '.join([o for o in owners if o[0] == 'script' and o[1] == eng and o[2] == i][0][3]),
+                         'replay_cmd': "echo 'run %s %s 60 1 %s' | /verif/.build/vdriver-hooks/vdriver" % (eng, d.encode().hex(), ev)})
             continue
         if tag == 'delayed':
             d, ev = dl_docs[i]
@@ -133,4 +158,26 @@ def delayed_docs():
             docs.append((hdr + '<parallel id="s1"><state id="s2"><onentry><send event="a"%s delay="%s" vid="101"/></onentry>'
                          '<transition event="a" target="s3" vid="102"/></state><state id="s5"><state id="s6"><transition event="a" target="s7" vid="103"/></state>'
                          '<state id="s7"/></state></parallel><state id="s3"><transition event="e" target="s4" vid="107"/></state><final id="s4"/></scxml>' % (tg, delay), '65'))
+    return docs
+
+
+def script_docs():
+    """(document, events as hex words, vids of the executed elements in execution order)"""
+    hdr = '<scxml xmlns="http://www.w3.org/2005/07/scxml" version="1.0" datamodel="lua" name="m"><datamodel><data id="Var1" expr="0"/></datamodel>'
+    e = b'e'.hex()
+    docs = []
+    # one and two document-level scripts, before and after the states
+    docs.append((hdr + '<script vid="150">Var1 = 5</script><state id="s1"><onentry><log expr="Var1" vid="151"/><script vid="152">Var1 = Var1 + 1</script></onentry>'
+                 '<transition event="e" target="s2" vid="153"><script vid="154">Var1 = Var1 * 2</script><log expr="Var1" vid="155"/></transition></state><final id="s2"/></scxml>',
+                 e, ['150', '151', '152', '154', '155']))
+    docs.append((hdr + '<script vid="150">Var1 = 5</script><script vid="156">Var1 = Var1 + 2</script><state id="s1"><onentry><log expr="Var1" vid="151"/></onentry>'
+                 '<onexit><script vid="157">Var1 = 0</script></onexit><transition event="e" target="s2" vid="153"/></state><final id="s2"/></scxml>',
+                 e, ['150', '156', '151', '157']))
+    docs.append((hdr + '<state id="s1"><onentry><if cond="Var1 == 5" vid="158"><script vid="159">Var1 = 1</script><else/><script vid="160">Var1 = 2</script></if><log expr="Var1" vid="151"/></onentry>'
+                 '<transition event="e" target="s2" vid="153"/></state><final id="s2"/><script vid="150">Var1 = 5</script></scxml>',
+                 e, ['150', '158', '159', '151']))
+    # a failing document-level script: error.execution, the bracket is still closed and the rest runs
+    docs.append((hdr + '<script vid="150">Var1 = nil + 1</script><state id="s1"><onentry><log expr="Var1" vid="151"/></onentry>'
+                 '<transition event="error.execution" target="s2" vid="153"><log expr="7" vid="161"/></transition></state><final id="s2"/></scxml>',
+                 '', ['150', '151', '161']))
     return docs
